@@ -98,6 +98,16 @@ CHECKS['C05'] = {
                   'Preconditions: ids in range, bind group index < 2^28.',
 }
 
+CHECKS['C01'] = {
+    'engine': 'V',
+    'technique': 'Verus contract on the HLSL operator exporter: same-named operator, operands in source order (sub-expression export uninterpreted)',
+    'level_text': 'Unbounded deductive proof (Verus) on the verbatim text of generate_intrinsic_op: for each of the 37 operator kinds the emitted node is the same-named unary / binary syntax operator '
+                  'applied to the syntax exported from operand 0 (and operand 1, in that order); arity asserts and the unreachable panic are discharged.',
+    'level_note': 'Partial and node-local: ONE node kind of the exporter. The statement as a whole (bit-identical results of source and emitted program) needs formal semantics of RSSL and HLSL and a proof through '
+                  'exporter + formatter and is not decided: statements, calls, casts, swizzles, parenthesisation (formatter), literal printing are outside this check. '
+                  'Assumed: generate_expression relates its output to its input (uninterpreted `exported_from`). Preconditions: the operator is not one of the five internal helper operations; arity matches.',
+}
+
 NOT_APPLICABLE = {
     'C01': 'not yet built in this session (planned partial claim: literal values and operator identity in the HLSL exporter); see DESIGN.md §3 C01',
     'C02': 'MSL meaning preservation: the Metal generator is three monoliths (4.5k+2.2k+1k lines) over HashMap-backed context; no formal MSL semantics or function-level contract within reach of Verus/Kani',
